@@ -2393,8 +2393,10 @@ class Array:
             raise ValueError(f'wrong argument types: {type(prefactor)!r}, {type(other)!r}')
         calc_dtype = np.result_type(self.dtype, other.dtype, prefactor)
         self.ibinary_blockwise(np.add, other.__mul__(prefactor))
-        if len(self._data) == 0:
-            self.dtype = calc_dtype  # no block to read the type from
+        if self.dtype != calc_dtype:
+            # e.g. no block to read the type from, or only blocks of `other` with a narrower type
+            self.dtype = calc_dtype
+            self._data = [d.astype(calc_dtype) for d in self._data]
         return self
 
     @use_cython(replacement='Array_iscale_prefactor')
